@@ -66,19 +66,21 @@ func c05Check(cc CfgCase, rec *Recorder) *Disc {
 	}
 	rec.Eval(1)
 	var held []heldErr
-	for pass := 0; pass < 2; pass++ {
+	// one Config value (one set of backing arrays) is handed to all three calls, as a caller who keeps
+	// its Config around would do: what is wrong with it is the same every time
+	shared := c.Cors()
+	for pass := 0; pass < 3; pass++ {
 		var (
 			m   *cors.Middleware
 			err error
 		)
-		if pass == 0 {
-			m, err = cors.NewMiddleware(c.Cors())
+		if pass != 1 {
+			m, err = cors.NewMiddleware(shared)
 		} else {
 			m = new(cors.Middleware)
-			cfg := c.Cors()
-			err = m.Reconfigure(&cfg)
+			err = m.Reconfigure(&shared)
 		}
-		entry := []string{"NewMiddleware", "Reconfigure"}[pass]
+		entry := []string{"NewMiddleware", "Reconfigure (same Config value again)", "NewMiddleware (same Config value a third time)"}[pass]
 		if len(exp) == 0 {
 			if err != nil {
 				return discf("%s rejects a configuration assembled only from documented-permitted settings: %+v: %v", entry, c, err)
@@ -91,7 +93,7 @@ func c05Check(cc CfgCase, rec *Recorder) *Disc {
 		if err == nil {
 			return discf("%s accepts %+v although it contains violations %v", entry, c, exp)
 		}
-		if pass == 0 && m != nil {
+		if pass != 1 && m != nil {
 			return discf("NewMiddleware returned a non-nil middleware together with error: %+v", c)
 		}
 		obs, bad := ObservedErrors(err)
@@ -186,7 +188,7 @@ func bucket(n int) string {
 func TestC05(t *testing.T) {
 	Prop[CfgCase]{ID: "C05", Gen: c05Gen, Check: c05Check,
 		Rule: "generator: configurations built only from labelled atoms (origin patterns: valid / insecure / public-suffix wildcard / 70 strings each with one documented defect; methods, request- and response-header names: valid / forbidden / prohibited / invalid in several letter cases; integers at and around each bound; all switch combinations), " +
-			"three balanced classes: all valid, exactly one planted violation, many simultaneous violations in any position and multiplicity. Oracle: multiset of documented typed errors (type, Value as supplied, Type, Reason, bounds) == cfgerrors.All sequence, for NewMiddleware and for Reconfigure on a zero value; both errors are inspected again, and must be unchanged, after a shifted copy of the configuration (every out-of-bounds integer moved, lists reversed) and a configuration violating every rule have been validated. " +
+			"three balanced classes: all valid, exactly one planted violation, many simultaneous violations in any position and multiplicity. Oracle: multiset of documented typed errors (type, Value as supplied, Type, Reason, bounds) == cfgerrors.All sequence, for NewMiddleware, for Reconfigure on a zero value and for NewMiddleware again, all three given the SAME Config value (same backing arrays); the errors are inspected again, and must be unchanged, after a shifted copy of the configuration (every out-of-bounds integer moved, lists reversed) and a configuration violating every rule have been validated. " +
 			"non-trivial = >=2 simultaneous violations in >=2 different fields, or an all-valid configuration using >=3 optional features; distinct by configuration.",
 		Assumptions: []string{"atom labels are taken from the Config/ExtraConfig/cfgerrors documentation and the Fetch forbidden-name lists",
 			"for malformed origin patterns the documentation does not say which of invalid/prohibited applies, so either is accepted (except null and file:, documented as prohibited)"}}.Run(t)
